@@ -55,6 +55,11 @@ Definition eff_uri (k : case) : str := if k_tftp k then norm_name (k_uri k) else
 Definition obs_nomatch (init : bool) : obs :=
   {| o_init := init; o_matches := false; o_opened := []; o_class := 4; o_body := [] |}.
 
+(* With a template engine the file is opened by the Jinja loader, which first makes the name absolute with
+   os.path.abspath, i.e. normalises it LEXICALLY (known finding D27: for a configured path with a symbolic link followed
+   by ".." that is another file).  For the absolute paths of the model abspath = normpath. *)
+Definition loader_path (c : config) (p : str) : str := if c_template c then normpath p else p.
+
 Definition run_model (k : case) : obs :=
   match handler_init (k_tftp k) (k_cfg k) with
   | Exc _ => obs_nomatch false
@@ -62,8 +67,10 @@ Definition run_model (k : case) : obs :=
       let u := if k_tftp k then rewrite_filename false (k_uri k) else k_uri k in
       let x := prepare_context (k_cfg k) r u in
       if matches x then
-        let '(_, opened, res) := handle (k_old232 k) T_id FS_none GD_some (table_open (k_table k)) (k_cfg k) r x in
-        {| o_init := true; o_matches := true; o_opened := if k_cached k then [] else opened;
+        let '(_, opened, res) := handle (k_old232 k) T_id FS_none GD_some
+                                        (fun p => table_open (k_table k) (loader_path (k_cfg k) p)) (k_cfg k) r x in
+        {| o_init := true; o_matches := true;
+           o_opened := if k_cached k then [] else map (loader_path (k_cfg k)) opened;
            o_class := class_of res; o_body := body_of res |}
       else obs_nomatch true
   end.
@@ -101,6 +108,15 @@ Definition subset_of_one (l : list str) (w : option str) : bool :=
 
 Definition is_ok {A} (r : res A) : bool := match r with Ok _ => true | Exc _ => false end.
 
+(* the configured root is absolute, has no trailing slash and is lexically normalised *)
+Definition root_okb (root : str) : bool :=
+  starts_with [SL] root && negb (ends_with [SL] root) && eqb_str (normpath root) root.
+(* For such a root (and in file mode) an existing regular file must be served.  For any other spelling of root_dir
+   ("./x", "a/../x", "x/.", a symbolic link followed by "..") the statement of C04 is taken by its letter: the handler
+   either answers not-found without opening anything or serves exactly the file that root_dir/<path> denotes to the
+   operating system - never another one (the unchanged code answers not-found for all of them, see docs/C04.md). *)
+Definition must_serve (k : case) : bool := c_filemode (k_cfg k) || root_okb (c_target (k_cfg k)).
+
 Definition holds (k : case) (o : obs) : list string :=
   match handler_init (k_tftp k) (k_cfg k) with
   | Exc _ => if o_init o then ["init_accepts"%string] else []
@@ -121,8 +137,9 @@ Definition holds (k : case) (o : obs) : list string :=
              match table_lookup (k_table k) p with
              | None => ["oracle_missing"%string]
              | Some (FsOpened content) =>
-                 if (o_class o =? 3) && eqb_str (o_body o) content
-                    && (k_cached k || list_str_eqb (o_opened o) [p])
+                 if ((o_class o =? 3) && eqb_str (o_body o) content
+                     && (k_cached k || list_str_eqb (o_opened o) [p]))
+                    || (negb (must_serve k) && (o_class o =? 0) && is_nil (o_opened o))
                  then [] else ["serves_the_named_file"%string]
              | Some FsENOENT | Some FsEISDIR | Some FsENOTDIR | Some FsENAMETOOLONG =>
                  if o_class o =? 0 then [] else ["not_regular_is_not_found"%string]
@@ -137,12 +154,19 @@ Definition holds (k : case) (o : obs) : list string :=
 (* the hypotheses of C04_holds as a boolean (C04.Props.C04_validb_valid); every part is decidable from the case:
    current variant, lookup_no_result_action = continue, directory mode => the root is absolute, has no trailing
    slash and is normalised, and the oracle table answers for the path the model names *)
-Definition root_okb (root : str) : bool :=
-  starts_with [SL] root && negb (ends_with [SL] root) && eqb_str (normpath root) root.
 Definition validb (k : case) : bool :=
   negb (k_old232 k) && c_continue (k_cfg k) &&
   (c_filemode (k_cfg k) || root_okb (c_target (k_cfg k))) &&
-  forallb (fun p => match table_lookup (k_table k) p with Some _ => true | None => false end) (wanted k).
+  forallb (fun p => match table_lookup (k_table k) p with Some _ => true | None => false end) (wanted k) &&
+  forallb (fun p => eqb_str (loader_path (k_cfg k) p) p) (wanted k).
+
+(* the checker also needs the oracle's answer for the file the request names (it differs from what the model opens
+   only when root_dir is not lexically normalised) *)
+Definition named_wanted (k : case) : list str :=
+  match handler_init (k_tftp k) (k_cfg k) with
+  | Exc _ => []
+  | Ok r => match named_file k r with Some p => [p] | None => [] end
+  end.
 
 (* ---- sx ---- *)
 Definition sxObs (o : obs) : sx :=
@@ -169,7 +193,7 @@ Definition entry (x : sx) : sx :=
   match x with
   | L [I 0%Z; tf; o2; ca; cfg; B uri] =>
       match decode_case tf o2 ca cfg uri [] with
-      | Some k => L (map sxStr (wanted k))
+      | Some k => L (map sxStr (wanted k ++ map (loader_path (k_cfg k)) (wanted k) ++ named_wanted k))
       | None => sxS "bad-case"
       end
   | L [I 1%Z; tf; o2; ca; cfg; B uri; L tbl; io] =>
